@@ -441,6 +441,47 @@ def check_c14(tier, seed, log=print):
                               key='apidiff|' + rq)
             elif len(samples) < 4 and 'clone' in ops and 'morph' in ops:
                 samples.append(dict(request=rq, observed=v))
+    # a call of next that does not return: the callback of the winning match panics (its bump is out of range) and the caller
+    # catches the unwind and goes on using the lexer.  Judged by the clauses themselves: the span denotes a slice of the source,
+    # slice() is that slice, remainder() is what follows it.  Sources with skipped text before the token whose callback panics.
+    preqs = []
+    for b in ['ab', '  ab', 'ab   cd', '12 \t ab', '/* c */ab =', '12   /* x */  é z', 'é  =', '= ab']:
+        for nexts in (0, 1, 2):
+            preqs.append('CBUMP s %s %d %d' % (P.hexs(b.replace('\t', ' ').encode('utf-8')), nexts, 2 ** 64 - 1))
+    for b in [b'ab', b'  ab', b'ab   \xff', b'12  = ab']:
+        for nexts in (0, 1, 2):
+            preqs.append('CBUMP b %s %d %d' % (P.hexs(b), nexts, 2 ** 64 - 1))
+    caught = 0
+    for name, (binp, err) in bins.items():
+        if binp is None:
+            continue
+        out, rc = run_lib(binp, preqs)
+        for rq in preqs:
+            v = out.get(rq)
+            evals += 1
+            if v in ('NOCALL', 'NOTUTF8'):
+                continue
+            t = (v or '').split(' ')
+            src = bytes.fromhex(rq.split(' ')[2])
+            msg = None
+            if v is None or len(t) < 5:
+                msg = 'no answer (process died?)'
+            elif t[1] != 'panic':
+                continue
+            elif 'INVALIDSPAN' in t or 'SLICEPANIC' in t:
+                msg = 'after the caught panic span() = %s..%s does not denote a slice of the source (or slice() panics)' % (t[2], t[3])
+            else:
+                a_, b_ = int(t[2]), int(t[3])
+                sl = bytes.fromhex(t[4]) if t[4] != '-' else b''
+                rem = bytes.fromhex(t[5]) if len(t) > 5 and t[5] != '-' else b''
+                if sl != src[a_:b_] or rem != src[b_:]:
+                    msg = 'after the caught panic slice() / remainder() are not source[span()] / source[span().end..]'
+            caught += 1
+            if msg:
+                run.violation('api', dict(config=name, request=rq, observed=v, what=msg,
+                                          history='%s calls of next, then a call of next whose callback panics (caught), then span / slice / remainder' % rq.split(' ')[3]),
+                              key='apipanic|' + rq)
+    run.coverage['calls_of_next_ending_in_a_caught_panic'] = caught
     run.coverage.update(dict(obligations=au['obligations'], discharged=au['discharged'], theorems=au['names'], axioms=au['axioms'],
                              checker_cmd=au['checker_cmd'], kernel_recheck=au.get('kernel_recheck'), trusted_base=TRUSTED_BASE,
                              evaluations=evals, distinct_nontrivial=len(nontriv), op_mix=opcount, configs=list(bins),
